@@ -44,6 +44,12 @@
 (*           abandoned branch (STALE)                                      *)
 (*  "mono"   (c846cf0d) the LIB is only replaced by a higher one; before,  *)
 (*           the result of calcLIB was assigned unconditionally (UNCOND)   *)
+(* A fourth repair is PROPOSED, not in the code (never in a configuration  *)
+(* whose behaviours are replayed):                                         *)
+(*  "persist" the status is also saved after a block failed (as a child of *)
+(*           the best block or inside a reorganisation that is given up):  *)
+(*           Update calls made on the way may have raised the LIB, which   *)
+(*           is lost at the next restart otherwise (UNSAVED)               *)
 (***************************************************************************)
 EXTENDS Integers, Sequences, FiniteSets, TLC, Util
 
@@ -57,8 +63,8 @@ CONSTANTS N,            \* number of block producers; BP = 0..N-1
                         \* "any"    = it also chooses Confirms freely from ByzRanges
           ByzRanges,    \* Confirms values available in mode "any"
           Runs,         \* TRUE: a run of blocks may also arrive children first (orphan pool): action DeliverRun
-          BadKinds,     \* what a Byzantine producer's block may be: subset of {"ok", "exec", "pre"} (executes / fails inside
-                        \* execute() / fails before execution); scripted trees mark invalid blocks themselves
+          BadKinds,     \* what a Byzantine producer's block may be: subset of {"ok", "exec"} (executes / fails inside
+                        \* execute()); scripted trees mark invalid blocks themselves
           Fixes         \* repairs contained in the model: subset of {"attach", "stale", "mono"} (see the header);
                         \* all three = the code as it is now, {} = the code before the repairs
 
@@ -206,20 +212,25 @@ RECURSIVE FirstBad(_, _, _)
 FirstBad(B, path, k) == IF k > Len(path) THEN 0 ELSE IF B[path[k]].bad # "ok" THEN k ELSE FirstBad(B, path, k + 1)
 
 \* ---------------------------------------------------------------- the chain service handling one block
-\* results: the set of [n |-> new node record, res |-> outcome].  A block is "ok", or fails inside execute() ("exec":
-\* wrong state/receipts root, failing transaction; executeBlock then calls Update(best block of the chain DB)), or fails
-\* before execution ("pre": ValidateBlock / IsBlockValid; no Update call).  A block that fails as the child of the best
-\* block is not stored; a side-branch block is stored unexecuted and fails when a reorganisation rolls forward over it:
-\* rollback to the branch root, Update for the valid prefix, then ("exec") Update(old best block), which is a rollback
-\* to the old best block over the unchanged height index.
-Handle(B, n, b, self) ==
+\* results: the set of [n |-> new node record, res |-> outcome].  A block is "ok" or fails inside execute() ("exec": wrong
+\* state/receipts root, failing transaction); executeBlock then calls Update(best block of the chain DB).  (A block that
+\* fails before execution - ValidateBlock, e.g. a wrong transaction root - is refused on arrival, is never stored and
+\* touches nothing: not modelled.)  A block that fails as the child of the best block is not stored; a side-branch block is
+\* stored unexecuted and fails when a reorganisation rolls forward over it: rollback to the branch root, Update for the
+\* valid prefix, then Update(old best block), which is a rollback to the old best block over the unchanged height index.
+\* the status is saved with the tip: in the transaction that connects a block and in the bulk that swaps the height
+\* index after a reorganisation; nowhere else (with "persist": also after a block that failed, see the header)
+SvOf(S) == [pr |-> S.pr, lib |-> S.lib, lpb |-> S.lpb]
+Saved(n) == [n EXCEPT !.sv = [pr |-> n.pr, lib |-> n.lib, lpb |-> n.lpb]]
+Failed(n) == IF "persist" \in Fixes THEN Saved(n) ELSE n
+
+HandleRaw(B, n, b, self) ==
   IF No(B, b) <= EffLib(B, n) THEN {[n |-> n, res |-> "refused"]}                       \* VerifyTimestamp
   ELSE IF Par(B, b) = n.best
   THEN IF B[b].bad = "ok"
-       THEN {[n |-> [WithSt(n, S) EXCEPT !.best = b, !.known = @ \cup {b}, !.ld = TRUE], res |-> "connected"] :
+       THEN {[n |-> Saved([WithSt(n, S) EXCEPT !.best = b, !.known = @ \cup {b}, !.ld = TRUE]), res |-> "connected"] :
                 S \in UpdateOp(B, StOf(n), b, n.best, self)}
-       ELSE IF B[b].bad = "pre" THEN {[n |-> n, res |-> "invalid"]}
-       ELSE {[n |-> [WithSt(n, S) EXCEPT !.ld = TRUE], res |-> "invalid"] : S \in UpdateOp(B, StOf(n), n.best, n.best, self)}
+       ELSE {[n |-> Failed([WithSt(n, S) EXCEPT !.ld = TRUE]), res |-> "invalid"] : S \in UpdateOp(B, StOf(n), n.best, n.best, self)}
   ELSE LET n1 == [n EXCEPT !.known = @ \cup {b}]                                         \* side branch: stored
        IN IF No(B, b) <= No(B, n.best) THEN {[n |-> n1, res |-> "side"]}
           ELSE LET r    == ComAnc(B, n.best, b)
@@ -228,16 +239,21 @@ Handle(B, n, b, self) ==
                    Rb   == UpdateOp(B, StOf(n), r, n.best, self)                           \* reorg.rollback(): Update(r)
                IN IF ~(No(B, r) >= EffLib(B, n)) THEN {[n |-> n1, res |-> "vetoed"]}       \* NeedReorganization
                   ELSE IF k = 0
-                  THEN {[n |-> [WithSt(n1, S) EXCEPT !.best = b, !.ld = TRUE], res |-> "reorg"] :
+                  THEN {[n |-> Saved([WithSt(n1, S) EXCEPT !.best = b, !.ld = TRUE]), res |-> "reorg"] :
                            S \in AppendAll(B, Rb, path, 1, Len(path), n.best, self)}
                   ELSE LET Pre == AppendAll(B, Rb, path, 1, k - 1, n.best, self)              \* the valid prefix
-                       IN IF B[path[k]].bad = "pre"
-                          THEN {[n |-> [WithSt(n1, S) EXCEPT !.ld = TRUE], res |-> "reorg-failed"] : S \in Pre}
-                          ELSE {[n |-> [WithSt(n1, S) EXCEPT !.ld = TRUE], res |-> "reorg-failed"] :
-                                   S \in UNION {UpdateOp(B, P, n.best, n.best, self) : P \in Pre}}
+                       IN {[n |-> Failed([WithSt(n1, S) EXCEPT !.ld = TRUE]), res |-> "reorg-failed"] :
+                              S \in UNION {UpdateOp(B, P, n.best, n.best, self) : P \in Pre}}
+
+\* an arriving block whose handling ends in an error is remembered in the errored-blocks cache (in memory only) and
+\* refused without any processing from then on
+Handle(B, n, b, self) ==
+  {[n |-> IF h.res \in {"invalid", "reorg-failed"} THEN [h.n EXCEPT !.err = @ \cup {b}] ELSE h.n, res |-> h.res] :
+      h \in HandleRaw(B, n, b, self)}
 
 \* ---------------------------------------------------------------- actions
-InitNode == [best |-> 0, known |-> {}, cf |-> <<>>, pr |-> EmptyPr, lib |-> 0, lpb |-> 0, bfl |-> 0, ld |-> TRUE, sb |-> 0]
+InitNode == [best |-> 0, known |-> {}, cf |-> <<>>, pr |-> EmptyPr, lib |-> 0, lpb |-> 0, bfl |-> 0, ld |-> TRUE, sb |-> 0,
+             err |-> {}, sv |-> [pr |-> EmptyPr, lib |-> 0, lpb |-> 0]]
 
 Init ==
   /\ blk \in Blk0s
@@ -282,7 +298,7 @@ ByzProduce(p, par, c, bd) ==
 \* a block from the network reaches node i (its parent is already stored)
 Deliver(i, b) ==
   /\ b \in 1 .. Len(blk)
-  /\ b \notin node[i].known
+  /\ b \notin node[i].known /\ b \notin node[i].err
   /\ Par(blk, b) = 0 \/ Par(blk, b) \in node[i].known
   /\ \E h \in Handle(blk, node[i], b, i) :
        /\ node' = [node EXCEPT ![i] = h.n]
@@ -297,7 +313,7 @@ Deliver(i, b) ==
 RECURSIVE MainRun(_, _, _, _, _)
 MainRun(B, Ns, path, k, self) ==        \* Ns: set of node records
   IF k > Len(path) THEN {[n |-> n, res |-> "connected"] : n \in Ns}
-  ELSE UNION {LET H == Handle(B, n, path[k], self)
+  ELSE UNION {LET H == HandleRaw(B, n, path[k], self)
               IN UNION {IF h.res = "connected" THEN MainRun(B, {h.n}, path, k + 1, self) ELSE {h} : h \in H} : n \in Ns}
 
 DeliverRun(i, a, b) ==
@@ -307,12 +323,13 @@ DeliverRun(i, a, b) ==
   /\ Par(blk, a) = 0 \/ Par(blk, a) \in node[i].known
   /\ LET n    == node[i]
          path == Path(blk, Par(blk, a), b)
-     IN /\ \A k \in 1 .. Len(path) : path[k] \notin n.known
+     IN /\ \A k \in 1 .. Len(path) : path[k] \notin n.known /\ path[k] \notin n.err
         /\ No(blk, a) > EffLib(blk, n)
         /\ \E h \in (IF Par(blk, a) = n.best
                       THEN MainRun(blk, {n}, path, 1, i)
-                      ELSE Handle(blk, [n EXCEPT !.known = @ \cup {path[k] : k \in 1 .. (Len(path) - 1)}], b, i)) :
-              /\ node' = [node EXCEPT ![i] = h.n]
+                      ELSE HandleRaw(blk, [n EXCEPT !.known = @ \cup {path[k] : k \in 1 .. (Len(path) - 1)}], b, i)) :
+              \* the error of the run is the error of the arriving block a: a is the one that is cached
+              /\ node' = [node EXCEPT ![i] = IF h.res \in {"invalid", "reorg-failed"} THEN [h.n EXCEPT !.err = @ \cup {a}] ELSE h.n]
               /\ lastAct' = [name |-> "DeliverRun", node |-> i, b |-> b, a |-> a, res |-> h.res]
   /\ UNCHANGED <<blk, restarts>>
 
@@ -322,8 +339,8 @@ Restart(i) ==
   /\ restarts < MaxRestarts
   /\ node[i].best # 0
   /\ LET n == node[i]
-         S == Load(blk, StOf(n), n.best, No(blk, n.best))
-     IN node' = [node EXCEPT ![i] = [WithSt(n, S) EXCEPT !.bfl = S.lpb, !.ld = ("attach" \in Fixes), !.sb = n.best]]
+         S == Load(blk, [cf |-> <<>>, pr |-> n.sv.pr, lib |-> n.sv.lib, lpb |-> n.sv.lpb, sb |-> n.best], n.best, No(blk, n.best))
+     IN node' = [node EXCEPT ![i] = [WithSt(n, S) EXCEPT !.bfl = S.lpb, !.ld = ("attach" \in Fixes), !.sb = n.best, !.err = {}]]
   /\ restarts' = restarts + 1
   /\ lastAct' = [name |-> "Restart", node |-> i, b |-> 0, res |-> "restarted"]
   /\ UNCHANGED blk
